@@ -127,10 +127,10 @@ static void ev_conv(const A& a) {
 }
 
 static void ev_wday(const civil_second& cs) {
-  int wd = static_cast<int>(get_weekday(cs));
-  int yd = get_yearday(cs);
+  int wd = -1, yd = -1, ub;
+  VT_GUARD(ub, wd = static_cast<int>(get_weekday(cs)); yd = get_yearday(cs));
   out->emit("{\"e\":\"Wday\",\"a\":" + F(cs) + ",\"wd\":" + std::to_string(wd) + ",\"yd\":" +
-            std::to_string(yd) + "}");
+            std::to_string(yd) + ",\"ub\":" + std::to_string(ub) + "}");
 }
 static void ev_nextprev(const civil_day& cd, int wd) {
   int ub;
